@@ -5,6 +5,7 @@ import scipy.interpolate as interp
 from ...hilbertspace.hamiltonian import Hamiltonian
 from ...liouvillespace.systembathinteraction import SystemBathInteraction
 from ...corfunctions.correlationfunctions import c2g
+from ....core.managers import energy_units
 
 class FoersterRateMatrix:
     """Förster relaxation rate matrix
@@ -56,7 +57,8 @@ class FoersterRateMatrix:
     
     def initialize(self):
 
-        HH = self.ham.data
+        with energy_units("int"):
+            HH = self.ham.data
         Na = self.ham.dim
         sbi = self.sbi
             
@@ -72,8 +74,9 @@ class FoersterRateMatrix:
         
         # reorganization energies
         ll = numpy.zeros(Na)
-        for ii in range(1, Na):
-            ll[ii] = sbi.CC.get_reorganization_energy(ii-1,ii-1)
+        with energy_units("int"):
+            for ii in range(1, Na):
+                ll[ii] = sbi.CC.get_reorganization_energy(ii-1,ii-1)
             
         self.data = _reference_implementation(Na, HH, tt, gt, ll)
     
